@@ -25,6 +25,7 @@ HEADER = [
 KINDS = [
     ("assign",            ["y = x + 1"], []),
     ("augassign",         ["x += 1"], []),
+    ("assign_ret_prefix", ["retval = x + 1"], []),                       # a name that merely starts like `return`
     ("annassign",         ["z: int = 5"], []),
     ("tuple_assign",      ["p, q = 1, 2"], []),
     ("chained_assign",    ["p = q = 7"], []),
@@ -73,7 +74,7 @@ KINDS = [
     ("class_def",         ["class K:", "    kk = 1"], ["kk = 1"]),
     ("nested_def",        ["def inner():", "    mon.write(\"C\")"], ["mon.write(\"C\")"]),
     ("async_def",         ["async def co():", "    mon.write(\"C\")"], ["mon.write(\"C\")"]),
-    ("decorator",         ["@staticmethod"], []),
+    ("decorator",         ["@trace", "def deco():", "    mon.write(\"C\")"], ["def deco():", "    mon.write(\"C\")"]),
     ("continue_in_while", ["while x < 3:", "    x += 1", "    continue"], ["while x < 3:", "    x += 1"]),
     ("continue_in_for",   ["for i in range(3):", "    mon.write(\"C\")", "    continue"], ["for i in range(3):", "    mon.write(\"C\")"]),
     ("continue_outside_loop", ["continue"], []),
